@@ -22,6 +22,23 @@ fn main() {
     }
 }
 
+/// every OTHER route to the widening conversion to the signed companion format (`Sample::Signed`): the provided method
+/// `to_signed_sample` (which an implementor may override), the mono frame's and the array frame's `to_signed_frame`
+/// -> (source format, signed companion, [to_signed_sample, mono to_signed_frame, [s, s].to_signed_frame()[1]])
+fn signed_routes() -> Vec<(&'static str, &'static str, fn(i128) -> [i128; 3])> {
+    use dasp_frame::Frame;
+    use dasp_sample::{Sample, I24, I48, U24, U48};
+    macro_rules! r { ($s:expr, $d:expr, $mk:expr, $rd:expr) => { ($s, $d, (|v: i128| { let s = ($mk)(v); [($rd)(s.to_signed_sample()), ($rd)(Frame::to_signed_frame(s)), ($rd)([s, s].to_signed_frame()[1])] }) as fn(i128) -> [i128; 3]) } }
+    vec![
+        r!("i8", "i8", |v: i128| v as i8, |x: i8| x as i128), r!("i16", "i16", |v: i128| v as i16, |x: i16| x as i128),
+        r!("i24", "i24", |v: i128| I24::new_unchecked(v as i32), |x: I24| x.inner() as i128), r!("i32", "i32", |v: i128| v as i32, |x: i32| x as i128),
+        r!("i48", "i48", |v: i128| I48::new_unchecked(v as i64), |x: I48| x.inner() as i128), r!("i64", "i64", |v: i128| v as i64, |x: i64| x as i128),
+        r!("u8", "i8", |v: i128| v as u8, |x: i8| x as i128), r!("u16", "i16", |v: i128| v as u16, |x: i16| x as i128),
+        r!("u24", "i32", |v: i128| U24::new_unchecked(v as i32), |x: i32| x as i128), r!("u32", "i32", |v: i128| v as u32, |x: i32| x as i128),
+        r!("u48", "i64", |v: i128| U48::new_unchecked(v as i64), |x: i64| x as i128), r!("u64", "i64", |v: i128| v as u64, |x: i64| x as i128),
+    ]
+}
+
 pub const INTS: [&str; 12] = ["i8", "i16", "i24", "i32", "i48", "i64", "u8", "u16", "u24", "u32", "u48", "u64"];
 
 pub fn bits(f: &str) -> u32 { f[1..].parse().unwrap() }
@@ -64,6 +81,23 @@ pub fn run(a: &Args) {
     let n_rand_model = if a.thorough() { 20_000 } else { 1_500 };
     let n_rand_native: u64 = if a.thorough() { 3_000_000 } else { 100_000 };
     let mut all_exhaustive_small = true;
+    // the signed-companion routes: boundary values + random, against the same specification (identity when the format
+    // is its own companion)
+    for (s, d, f) in signed_routes() {
+        let (l, h) = (lo(s), hi(s));
+        let mut vals = boundary_values(s);
+        for _ in 0..2000 { vals.push(rng.range_i128(l, h)); }
+        for v in vals {
+            let want = if s == d { v } else { spec(s, d, v) };
+            mark(0, &format!("signed-companion routes {} -> {} {}", s, d, v));
+            match guarded(|| f(v)) {
+                Some(got) if got == [want; 3] => st.oracle_ok(3),
+                other => st.oracle_fail(&format!("a route to the signed companion ({} -> {}: to_signed_sample / mono to_signed_frame / array to_signed_frame) differs from amplitude*2^(bd-bs)", s, d),
+                    &format!("conv {} {} {} {}", s, d, mode, v), &want.to_string(), &format!("{:?}", other)),
+            }
+        }
+        st.count("signed_companion_routes");
+    }
     for &(s, d, direct, t1, t2, t3, t4) in TABLE.iter() {
         if s.starts_with('f') || d.starts_with('f') { continue; }
         let (l, h) = (lo(s), hi(s));
